@@ -1,7 +1,59 @@
-import TuModel.Model.ByteTok
-import TuModel.Model.CharTok
-import TuModel.Model.Bpe
+/-
+  C02 — BPE tokenisation only regroups bytes: for every well-formed merge table and every word of
+  bytes the ids produced by the merge loop (`Tu.mergeWordImpl`) decode, token by token, to byte
+  strings whose concatenation is the word, and every id is a vocabulary id (`< 256 + |table|`);
+  the words produced by the splitter (`\s+\S+|^\S+`, `Tu.splitWords`) concatenate to the text
+  without its trailing white space.
+
+  Proofs: Lemmas/BpeL5 (`mergeWordSpec_concat`, on top of C03's `mergeWordImpl = mergeWordSpec`)
+  and Lemmas/SplitL (`splitWords_flatten`).
+-/
+import TuModel.Lemmas.BpeL5
+import TuModel.Lemmas.SplitL
 namespace Tu.C02
 open Tu
-theorem placeholder_uniq_nil : uniq [] = [] := rfl
+
+/-- bytes of a token id of the BPE vocabulary: single bytes, then table entries by merge id -/
+def idBytes (t : MTable) (id : Nat) : List Nat := if id < 256 then [id] else (tbytes t (id - 256)).getD []
+
+/-- the merge loop only regroups bytes: the token byte strings concatenate to the word -/
+theorem mergeWordImpl_concat (t : MTable) (w : List Nat) (hwf : wfTable t = true) (hw : ∀ b ∈ w, b < 256) :
+    ∃ ids, mergeWordImpl t w = some ids ∧ ids.flatMap (idBytes t) = w ∧ ∀ id ∈ ids, id < 256 + t.length := by
+  obtain ⟨heq, hsome⟩ := mergeWordImpl_eq_spec' t w hwf hw
+  obtain ⟨ids, hids⟩ := Option.isSome_iff_exists.mp hsome
+  obtain ⟨h1, h2⟩ := mergeWordSpec_concat hwf w hw ids (by rw [← heq]; exact hids)
+  exact ⟨ids, hids, h1, h2⟩
+
+/-- `idBytes` agrees with the model's vocabulary function on vocabulary ids -/
+theorem idBytes_eq_bpeIdBytes (cfg : BpeCfg) (id : Nat) (b : List Nat) (h : bpeIdBytes cfg id = some b) :
+    idBytes cfg.table id = b := by
+  unfold bpeIdBytes at h
+  unfold idBytes
+  by_cases h1 : id < 256
+  · rw [if_pos h1] at h ⊢; simpa using h
+  · rw [if_neg h1] at h ⊢
+    by_cases h2 : id < 256 + cfg.table.length
+    · rw [if_pos h2] at h; rw [h]; rfl
+    · rw [if_neg h2] at h; simp at h
+
+/-- words produced by the splitter concatenate to the text without its trailing whitespace -/
+def dropTrailingWs (s : List Nat) : List Nat := (s.reverse.dropWhile isWsCp).reverse
+
+theorem splitWords_flatten (s : List Nat) : (splitWords s).flatten = dropTrailingWs s :=
+  Tu.splitWords_flatten s
+
+/-! non-vacuity -/
+example : wfTable [([97, 98], 0), ([99, 100], 1), ([97, 98, 99], 2), ([97, 98, 99, 100], 3)] = true := by decide
+example : mergeWordImpl [([97, 98], 0), ([99, 100], 1), ([97, 98, 99], 2), ([97, 98, 99, 100], 3)]
+    [97, 98, 99, 100] = some [259] := by decide
+example : [259].flatMap (idBytes [([97, 98], 0), ([99, 100], 1), ([97, 98, 99], 2), ([97, 98, 99, 100], 3)])
+    = [97, 98, 99, 100] := by decide
+example : ∃ ids, mergeWordImpl [([97, 98], 0), ([99, 100], 1), ([97, 98, 99], 2), ([97, 98, 99, 100], 3)]
+    [97, 98, 99, 100, 97, 98] = some ids ∧
+    ids.flatMap (idBytes [([97, 98], 0), ([99, 100], 1), ([97, 98, 99], 2), ([97, 98, 99, 100], 3)])
+      = [97, 98, 99, 100, 97, 98] ∧ ∀ id ∈ ids, id < 256 + 4 :=
+  mergeWordImpl_concat _ _ (by decide) (by decide)
+example : (splitWords [32, 97, 98, 32, 32, 99, 32]).flatten = [32, 97, 98, 32, 32, 99] := by
+  rw [splitWords_flatten]; decide
+
 end Tu.C02
